@@ -3,5 +3,5 @@ CONSTANTS Keys = {1, 2}
           Datas = {1, 2}
           Zero = {2}
           MaxT = 2
-INVARIANTS TypeOK IdealSound AcceptIffValid DevMonotone TriggeredCompareComplete CodeErrIsCodeValid Unforgeable AccessorsReportSigned OneNameOnly FreshAccepted
+INVARIANTS TypeOK IdealSound AcceptIffValid TriggeredCompareComplete CodeErrIsCodeValid Unforgeable AccessorsReportSigned FreshAccepted
 CHECK_DEADLOCK FALSE
